@@ -362,3 +362,31 @@ package types
 //@ func (h IStakeHandler) IsValidator(addr)
 //@   pure
 //@   ensures result == isvalidator(h, content(addr))
+
+// ---- the signed encoding binds every executed field (C03) ------------------------------------------
+// Trx.EncodeRLP is what PreImageToSignTrxRLP signs (with Sig cleared): each field of the transaction goes into
+// the encoded record through an injective map (identity, widening cast, minimal big-endian bytes of a 256-bit
+// value, RLP encoding of the payload object)
+//@ func (tx *Trx) EncodeRLP(w)
+//@   requires tx != nil && tx.Amount != nil && tx.GasPrice != nil
+//@   modifies everything
+//@   assert@store(trxRPL.Version,0): $value == tx.Version                                                      [C03]
+//@   assert@store(trxRPL.Time,0): $value == (tx.Time >= 0 ? tx.Time : tx.Time + 2^64)                          [C03]
+//@   assert@store(trxRPL.Nonce,0): $value == tx.Nonce                                                          [C03,C04]
+//@   assert@store(trxRPL.From,0): $value == tx.From                                                            [C03]
+//@   assert@store(trxRPL.To,0): $value == tx.To                                                                [C03]
+//@   assert@store(trxRPL.Amount,0): len($value) == strlen(u256bytes(u(tx.Amount))) && (len($value) == 0 || content($value) == u256bytes(u(tx.Amount)))                              [C03]
+//@   assert@store(trxRPL.Gas,0): $value == tx.Gas                                                              [C03,C16]
+//@   assert@store(trxRPL.GasPrice,0): len($value) == strlen(u256bytes(u(tx.GasPrice))) && (len($value) == 0 || content($value) == u256bytes(u(tx.GasPrice)))                          [C03,C16]
+//@   assert@store(trxRPL.Type,0): $value == (tx.Type >= 0 ? tx.Type : tx.Type + 2^64)                          [C03]
+//@   assert@store(trxRPL.Sig,0): $value == tx.Sig                                                              [C03]
+//@   assert@call(EncodeToBytes,0): $arg0 == tx.Payload                                                         [C03]
+//@   assert@call(Encode,0): $arg0 == w                                                                         [C03]
+
+// payload encoders: the value handed to the RLP encoder is the payload's own field (for an amount: its
+// minimal big-endian bytes, which determine it)
+//@ func (tx *TrxPayloadWithdraw) EncodeRLP(w)
+//@   requires tx != nil && tx.ReqAmt != nil
+//@   modifies everything
+//@   assert@call(Bytes,0): $arg0 == tx.ReqAmt                                                                  [C03,C13]
+//@   assert@call(Encode,0): $arg0 == w                                                                         [C03]
